@@ -7,6 +7,7 @@ from .. import gen, probe
 from ..drive import call
 from ..shard import Workload
 from ._common import arm_tt
+from . import ambient
 
 P = 'C03'
 tt = None
@@ -20,7 +21,7 @@ def setup(ctx):
 def make(rng, dmax=5, boundary=False):
     rows, cols, ranks = gen.rand_shape(rng, dmax=dmax, mmax=3, rmax=5, size_cap=8192)
     d = len(rows)
-    cplx = bool(rng.integers(0, 2))
+    cplx = gen.rand_cplx(rng)
     k = int(rng.integers(0, 6))
     if boundary:
         ranks = [int(rng.integers(1, 4))] + ranks[1:-1] + [int(rng.integers(1, 4))]
@@ -67,7 +68,7 @@ def clone(t):
 def w_sweeps(ctx, rng, idx):
     t, kind = make(rng, boundary=(idx % 5 == 0))
     ctx.describe({'op': 'ortho_left/right/ortho', 'row': t.row_dims, 'col': t.col_dims, 'ranks': t.ranks, 'kind': kind,
-                  'complex': bool(np.iscomplexobj(t.cores[0]))})
+                  'complex': [bool(np.iscomplexobj(c)) for c in t.cores]})
     a, b, c = clone(t), clone(t), clone(t)
     call('TT.ortho_left', a.ortho_left, prop=P)
     call('TT.ortho_right', b.ortho_right, prop=P)
@@ -95,7 +96,7 @@ def w_partial(ctx, rng, idx, param):
     side, d, s, e = param
     rows, cols = gen.rand_dims(rng, d, 3), ([1] * d if rng.random() < 0.5 else gen.rand_dims(rng, d, 2))
     ranks = gen.rand_ranks(rng, d, 4)
-    cplx = bool(rng.integers(0, 2))
+    cplx = gen.rand_cplx(rng)
     t = tt.TT(gen.rank_deficient_cores(rng, rows, cols, ranks, cplx) if rng.random() < 0.3 else gen.rand_cores(rng, rows, cols, ranks, cplx))
     ctx.describe({'op': 'ortho_' + side, 'start': s, 'end': e, 'row': rows, 'col': cols, 'ranks': ranks})
     if side == 'left':
@@ -121,6 +122,7 @@ WORKLOADS = [
     Workload('sweeps', w_sweeps, 500, 12000),
     Workload('partial', w_partial, None, None, enum=enum_partial),
     Workload('failpoint', w_failpoint, 60, 2000),
+    ambient.WORKLOAD,
 ]
 REQUIRED = ['C03|TT.ortho_left:value_preserved', 'C03|TT.ortho_right:value_preserved', 'C03|TT.ortho:value_preserved',
             'C03|TT.ortho_left:isometry', 'C03|TT.ortho_right:isometry', 'C03|TT.ortho:isometry',
